@@ -2,7 +2,7 @@
 (* Observations of the real consensus writer (Molecule.deduplicate_majority and the              *)
 (* `bamtagmultiome --consensus --multiprocess` command line) judged by the P-level operators of  *)
 (* PseudoRead.tla.  One event per molecule:                                                      *)
-(*  {"ev":"pseudo","tid":n,"via":"api"|"cli"|"cli_nosrc","maxN":k (-1 = None),"chrom":"chr1",  *)
+(*  {"ev":"pseudo","tid":n,"via":"api"|"api_hist"|"cli"|"cli_nosrc","maxN":k (-1 = None),"chrom":"chr1",  *)
 (*   "strand":b,"mol":{"SM","RX","DS":site,"TF":associated+overflow fragments,"af":associated}, *)
 (*   "reads":[{"start":s,"cigar":[{"op","n"}],"seq":[..],"q":[..]},..],   every mapped read      *)
 (*   "ref":{"start":s0,"seq":[..]},                     the reference over the molecule's span  *)
